@@ -1,7 +1,7 @@
 SPECIFICATION Spec
 CONSTANTS
   MaxArgv = 2
-  MaxUpdate = 1
+  MaxUpdate = 2
   EmitOn = TRUE
 INVARIANTS Emit RoundTrip EnumNamesMapBack
 CHECK_DEADLOCK FALSE
